@@ -30,6 +30,10 @@ META = {
 }
 
 
+# lemmas over the contracts, checked by Lean 4 + Mathlib on every run (lean/Lemmas.lean, rverif/lemmas.py)
+LEMMAS = ["card_of_range"]
+
+
 def SOURCES():
     return {"rsome.subroutines:event_dict": source_info(subroutines.event_dict), "rsome.subroutines:comb_set": source_info(subroutines.comb_set),
             "rsome.lp:DecVar.evtadapt": source_info(lp.DecVar.evtadapt), "rsome.lp:DecVarSub.affadapt": source_info(lp.DecVarSub.affadapt),
